@@ -11,7 +11,8 @@
 -/
 import Kopf.Model.C04_Diff
 import Kopf.Model.C04_Essence
-import Kopf.Lemmas.C04_WF
+import Kopf.Model.C04_Guards
+import Kopf.Lemmas.C04_OwnKey
 namespace Kopf.C04
 open Kopf Kopf.J
 
@@ -111,7 +112,8 @@ theorem system_metadata_invisible (cfg : Cfg) (extra : List (List String)) (kvs 
     essence cfg extra (.obj (J.insert "metadata" (.obj m') kvs)) = essence cfg extra (.obj kvs) :=
   essence_congr cfg (sameView_metadata kvs m m' extra hm hlab hann hown hx)
 
-/-- instance: adding/removing/changing the finalizer list. -/
+/-- corollary (an instance of `system_metadata_invisible`, not counted as a property theorem):
+    adding/removing/changing the finalizer list. -/
 theorem finalizers_invisible (cfg : Cfg) (extra : List (List String)) (kvs m : Kvs) (fins : J)
     (hm : lookup "metadata" kvs = some (.obj m)) (hx : ExtraAvoids "metadata" extra) :
     essence cfg extra (.obj (J.insert "metadata" (.obj (J.insert "finalizers" fins m)) kvs)) =
@@ -133,10 +135,40 @@ theorem finalizers_invisible (cfg : Cfg) (extra : List (List String)) (kvs m : K
 theorem marked_annotation_invisible (cfg : Cfg) (extra : List (List String)) (kvs m A A' : Kvs)
     (k0 : String) (p0 : List Char)
     (hm : lookup "metadata" kvs = some (.obj m)) (ha : lookup "annotations" m = some (.obj A))
-    (hd : A'.filter (fun kv => kv.1 != k0) = A.filter (fun kv => kv.1 != k0))
+    (hd : AgreeOffKey k0 A' A)
     (hp0 : pfx k0 = some p0) (hr : Robust A k0 p0) (hx : ExtraAnnOK extra) :
     essence cfg extra (.obj (withAnn kvs m A')) = essence cfg extra (.obj kvs) :=
   essence_withAnn cfg extra hm ha hd hp0 hr hx
+
+/-- **A whole group of annotations under one prefix** may appear, change or vanish in one write
+    (`A'` and `A` agree off the prefix `p0`): if before and after every key under `p0` is dropped by
+    the marked-prefix rule (`GroupDropped`), the essence is unchanged. This is what a Kopf-based
+    operator's patch looks like: its records plus the `kopf-managed` marker. -/
+theorem prefix_group_invisible (cfg : Cfg) (extra : List (List String)) (kvs m A A' : Kvs) (p0 : List Char)
+    (hm : lookup "metadata" kvs = some (.obj m)) (ha : lookup "annotations" m = some (.obj A))
+    (hd : AgreeOffPrefix p0 A' A) (hg : GroupDropped p0 A) (hg' : GroupDropped p0 A') (hx : ExtraAnnOK extra) :
+    essence cfg extra (.obj (withAnn kvs m A')) = essence cfg extra (.obj kvs) :=
+  essence_withAnn_of_filter cfg extra hm ha (filter_group_eq hd hg hg') hx
+
+/-- **The first write of an operator with a custom prefix onto an object that already has
+    annotations**: the new keys `new` (all under `p0`, the `kopf-managed` marker among them) are
+    appended to annotations `A` that have nothing under `p0`: the essence is unchanged. -/
+theorem first_custom_prefix_write_invisible (cfg : Cfg) (extra : List (List String)) (kvs m A new : Kvs) (p0 : List Char)
+    (hm : lookup "metadata" kvs = some (.obj m)) (ha : lookup "annotations" m = some (.obj A))
+    (hA : ∀ k, k ∈ keys A → pfx k ≠ some p0) (hnew : ∀ k, k ∈ keys new → pfx k = some p0)
+    (hmark : p0 ∈ markedPrefixes (keys new)) (hx : ExtraAnnOK extra) :
+    essence cfg extra (.obj (withAnn kvs m (A ++ new))) = essence cfg extra (.obj kvs) := by
+  obtain ⟨h1, h2, h3⟩ := group_of_append hA hnew hmark
+  exact prefix_group_invisible cfg extra kvs m A (A ++ new) p0 hm ha h1 h2 h3 hx
+
+example : (∀ k, k ∈ keys [("plain", J.str "v"), ("example.com/owner", J.str "me")] → pfx k ≠ some "my-op.example.com".toList)
+    ∧ (∀ k, k ∈ keys [("my-op.example.com/create_fn", J.str "{}"), ("my-op.example.com/kopf-managed", J.str "yes")] →
+        pfx k = some "my-op.example.com".toList)
+    ∧ "my-op.example.com".toList ∈ markedPrefixes (keys [("my-op.example.com/create_fn", J.str "{}"),
+        ("my-op.example.com/kopf-managed", J.str "yes")]) := by
+  refine ⟨?_, ?_, by decide⟩
+  · intro k hk; simp [keys] at hk; rcases hk with rfl | rfl <;> decide
+  · intro k hk; simp [keys] at hk; rcases hk with rfl | rfl <;> decide
 
 /-- the hypotheses are met by the default storages' keys … -/
 example : pfx "kopf.zalando.org/last-handled-configuration" = some "kopf.zalando.org".toList
@@ -204,52 +236,146 @@ theorem essence_wf (cfg : Cfg) (extra : List (List String)) (b e : J) (hb : J.WF
     (h : essence cfg extra b = .ok e) : J.WF e :=
   wf_essence hb h
 
-/-- **Any change of a payload field counts**: if a payload stanza differs (not `≈`) between two
-    well-formed bodies, the diff of their essences is non-empty — handling is triggered. -/
-theorem payload_change_detected (cfg : Cfg) (extra : List (List String)) (kvs kvs' : Kvs) (e e' x y : J) (k : String)
+/-- if two well-formed values differ (not `≈`) at some path, their diff is non-empty. -/
+theorem change_detected (e e' : J) (p : Path) (hw : J.WF e) (hw' : J.WF e')
+    (hne : ¬ resolveD e p ≈ resolveD e' p) : diff e e' [] ≠ [] :=
+  change_detected_at p hw hw' hne
+
+/-- **Any change of a payload field counts** — changed, added or removed (`none` reads as `null`):
+    if a payload stanza differs (not `≈`) between two well-formed bodies, the diff of their essences
+    is non-empty, so handling is triggered. -/
+theorem payload_change_detected (cfg : Cfg) (extra : List (List String)) (kvs kvs' : Kvs) (e e' : J) (k : String)
     (hk : PayloadKey k) (hd : AvoidKey k (diffbaseFields cfg.diffbase)) (hp : AvoidKey k (progressFields cfg.progress))
     (hb : J.WF (.obj kvs)) (hb' : J.WF (.obj kvs'))
     (h : essence cfg extra (.obj kvs) = .ok e) (h' : essence cfg extra (.obj kvs') = .ok e')
-    (hx : lookup k kvs = some x) (hy : lookup k kvs' = some y) (hne : ¬ x ≈ y) :
+    (hne : ¬ (lookup k kvs).getD .null ≈ (lookup k kvs').getD .null) :
     diff e e' [] ≠ [] := by
   have hwe := essence_wf cfg extra _ e hb h
   have hwe' := essence_wf cfg extra _ e' hb' h'
-  intro hnil
-  have heq := (diff_empty_iff e e' [] hwe hwe').1 hnil
   have g := payload_exact cfg extra kvs e k hk hd hp h
   have g' := payload_exact cfg extra kvs' e' k hk hd hp h'
-  rw [hx] at g
-  rw [hy] at g'
-  cases e with
-  | obj ke =>
-    cases e' with
-    | obj ke' =>
-      have hk1 := (eqv_obj_iff (by simpa [J.WF, wf] using hwe) (by simpa [J.WF, wf] using hwe')).1 heq k
-      simp only [get?] at g g'
-      rw [g, g'] at hk1
-      exact hne ((optRel_dn_some x y).1 hk1)
-    | _ => simp [get?] at g'
-  | _ => simp [get?] at g
+  refine change_detected e e' [k] hwe hwe' ?_
+  have r : ∀ (x : J) (o : Option J), x.get? k = o → resolveD x [k] = o.getD .null := by
+    intro x o hx
+    cases x with
+    | obj l => rw [resolveD_top]; simp only [get?] at hx; rw [hx]
+    | _ => simp only [get?] at hx; subst hx; rfl
+  rw [r e _ g, r e' _ g']
+  exact hne
 
-/-- an ordinary annotation (its prefix is not marked by any annotation of the object, and it is not
-    kubectl's last-applied one) passes the annotation filter of `build`; one under a marked prefix
-    does not. -/
-theorem ordinary_annotation_kept (A : Kvs) (k : String) (v : J) (hm : (k, v) ∈ A) (hl : k ≠ lastApplied)
-    (hu : ∀ p, pfx k = some p → p ∉ markedPrefixes (keys A)) :
-    (k, v) ∈ A.filter (fun kv => keepAnnotation (markedPrefixes (keys A)) kv.1) := by
-  refine List.mem_filter.2 ⟨hm, ?_⟩
-  have : (markedPrefixes (keys A)).any (fun p => underPrefix p k) = false := by
-    cases hany : (markedPrefixes (keys A)).any (fun p => underPrefix p k) with
-    | false => rfl
-    | true =>
-      obtain ⟨p, hp, hmem⟩ := (dropped_iff _ _).1 hany
-      exact absurd hmem (hu p hp)
-  simp [keepAnnotation, this, hl]
+/-- **Labels are in the essence, exactly**: for every configuration and handler-field set that leave
+    `metadata` to `build`'s own rules (`MetaPlain`), `essence.metadata.labels.<lk>` is the body's label. -/
+theorem label_exact (cfg : Cfg) (extra : List (List String)) (kvs : Kvs) (e : J) (lk : String)
+    (hplain : MetaPlain cfg extra) (h : essence cfg extra (.obj kvs) = .ok e) :
+    resolve? e ["metadata", "labels", lk] = labelOf kvs lk :=
+  essence_label lk hplain h
 
-theorem marked_annotation_dropped (A : Kvs) (k : String) (p : List Char) (hp : pfx k = some p)
-    (hm : p ∈ markedPrefixes (keys A)) : keepAnnotation (markedPrefixes (keys A)) k = false := by
-  have : (markedPrefixes (keys A)).any (fun p => underPrefix p k) = true := (dropped_iff _ _).2 ⟨p, hp, hm⟩
-  simp [keepAnnotation, this]
+/-- **Ordinary annotations are in the essence, exactly**: an annotation that is `Ordinary` (not
+    last-applied, prefix not marked as a Kopf operator's) and not under a prefix of the operator's
+    own storages (`NotOwn`) is in `essence.metadata.annotations` with the body's value. -/
+theorem annotation_exact (cfg : Cfg) (extra : List (List String)) (kvs : Kvs) (e : J) (ak : String)
+    (hplain : MetaPlain cfg extra) (hord : ∀ a0, bodyAnn kvs = some a0 → Ordinary ak a0) (hown : NotOwn cfg ak)
+    (h : essence cfg extra (.obj kvs) = .ok e) :
+    resolve? e ["metadata", "annotations", ak] = annOf kvs ak :=
+  essence_annotation ak hplain hord hown h
+
+/-- **Any change of a label counts** (changed, added, removed). -/
+theorem label_change_detected (cfg : Cfg) (extra : List (List String)) (kvs kvs' : Kvs) (e e' : J) (lk : String)
+    (hplain : MetaPlain cfg extra) (hb : J.WF (.obj kvs)) (hb' : J.WF (.obj kvs'))
+    (h : essence cfg extra (.obj kvs) = .ok e) (h' : essence cfg extra (.obj kvs') = .ok e')
+    (hne : ¬ (labelOf kvs lk).getD .null ≈ (labelOf kvs' lk).getD .null) :
+    diff e e' [] ≠ [] := by
+  refine change_detected e e' ["metadata", "labels", lk] (essence_wf cfg extra _ e hb h) (essence_wf cfg extra _ e' hb' h') ?_
+  simp only [resolveD, label_exact cfg extra kvs e lk hplain h, label_exact cfg extra kvs' e' lk hplain h']
+  exact hne
+
+/-- **Any change of an ordinary annotation counts** (changed, added, removed; the annotation is
+    ordinary and not-own in both bodies). -/
+theorem ordinary_annotation_change_detected (cfg : Cfg) (extra : List (List String)) (kvs kvs' : Kvs) (e e' : J)
+    (ak : String) (hplain : MetaPlain cfg extra) (hown : NotOwn cfg ak)
+    (hord : ∀ a0, bodyAnn kvs = some a0 → Ordinary ak a0) (hord' : ∀ a0, bodyAnn kvs' = some a0 → Ordinary ak a0)
+    (hb : J.WF (.obj kvs)) (hb' : J.WF (.obj kvs'))
+    (h : essence cfg extra (.obj kvs) = .ok e) (h' : essence cfg extra (.obj kvs') = .ok e')
+    (hne : ¬ (annOf kvs ak).getD .null ≈ (annOf kvs' ak).getD .null) :
+    diff e e' [] ≠ [] := by
+  refine change_detected e e' ["metadata", "annotations", ak] (essence_wf cfg extra _ e hb h)
+    (essence_wf cfg extra _ e' hb' h') ?_
+  simp only [resolveD, annotation_exact cfg extra kvs e ak hplain hord hown h,
+    annotation_exact cfg extra kvs' e' ak hplain hord' hown h']
+  exact hne
+
+/-- the hypotheses are met by the default configuration, a plain user annotation, a changed label. -/
+def cfgDefault : Cfg :=
+  ⟨.leaf (.annotations "kopf.zalando.org" "last-handled-configuration" true []),
+   [.annotations "kopf.zalando.org", .status ["status", "kopf", "progress"]], []⟩
+
+example : MetaPlain cfgDefault [["spec", "field"]] := by
+  refine ⟨?_, ?_, ?_⟩
+  · intro f hf; simp [cfgDefault, diffbaseFields, leafFields] at hf
+  · intro f hf
+    simp [cfgDefault, progressFields] at hf
+    subst hf
+    exact ⟨"status", rfl, by decide⟩
+  · intro f hf
+    simp at hf; subst hf
+    exact ⟨"spec", ["field"], rfl, by decide⟩
+
+example : NotOwn cfgDefault "example.com/owner" := by
+  intro p hp
+  simp [cfgDefault, diffbasePrefixes, leafPrefixes, progressPrefixes] at hp
+  subst hp
+  decide
+
+example : Ordinary "example.com/owner" [("example.com/owner", .str "me"), ("kopf.zalando.org/touch-dummy", .str "x")] :=
+  ⟨by decide, fun p hp => by
+    have : p = "example.com".toList := by
+      have h : pfx "example.com/owner" = some "example.com".toList := by decide
+      rw [h] at hp; exact (Option.some.inj hp).symm
+    subst this; decide⟩
+
+/-! ## the storages carry no state from one object to the next -/
+
+/-- **The annotation names depend only on the body served** (`make_keys` = `mark_key` + forming is a
+    function): whatever sequence of objects one storage instance serves, the answer for each object
+    is the answer a fresh storage gives for that object alone — in particular a ReplicaSet owned by a
+    Deployment gets its `-ofDRS` names whether or not the Deployment was served before it. The real
+    storages are tied to this by the shared-instance sequence runs of the harness. -/
+theorem keys_depend_only_on_body (h : Hashes) (v1 : Bool) (prefix_ key : String) (before after : List J) (b : J) :
+    (serveSeq h v1 prefix_ key (before ++ b :: after))[before.length]? = some (keysFor h v1 prefix_ key b) := by
+  simp [serveSeq]
+
+example : (keysFor [] true "kopf.zalando.org" "last-handled-configuration"
+      (.obj [("kind", .str "ReplicaSet"), ("metadata", .obj [("ownerReferences", .arr [.obj [("kind", .str "Deployment")]])])])).toOption
+      = some ["kopf.zalando.org/last-handled-configuration-ofDRS"]
+    ∧ (keysFor [] true "kopf.zalando.org" "last-handled-configuration"
+      (.obj [("kind", .str "Deployment"), ("metadata", .obj [])])).toOption
+      = some ["kopf.zalando.org/last-handled-configuration"] := by decide
+
+/-! ## own keys under an unmarked prefix (the exact-key / progress-prefix route) -/
+
+/-- **Own key, unmarked prefix, single annotations diff-base storage** (the guard that excludes F9:
+    no `MultiDiffBaseStorage`): with `AnnotationsDiffBaseStorage(prefix=p, key=key)`, setting, changing
+    or removing one of its exact keys (`ks`, as formed by `make_keys` for this body), or any key under
+    the prefix of an `AnnotationsProgressStorage`, leaves the essence the same mapping — the diff of
+    the two essences is empty (no re-trigger) — although the prefix is not marked (`markedPrefix? k0 =
+    none`: no `kopf-managed` marker yet, or a `kopf.*` prefix for which none is ever written).
+    Full clause (for every configuration) is false: `multi_drs_witness` (F9). -/
+theorem own_key_unmarked_invisible_partial (cfg : Cfg) (extra : List (List String)) (kvs m A A' : Kvs)
+    (k0 p key : String) (v1 : Bool) (ig : List (List String)) (mk : List Char) (ks : List String) (e e' : J)
+    (hcfg : cfg.diffbase = .leaf (.annotations p key v1 ig)) (hplain : MetaPlain cfg extra)
+    (hm : lookup "metadata" kvs = some (.obj m)) (ha : lookup "annotations" m = some (.obj A))
+    (hd : AgreeOffKey k0 A' A) (hmark : markedPrefix? k0 = none)
+    (hmk : markKey (.obj kvs) key.toList = .ok mk) (hks : makeKeys cfg.hashes v1 p.toList mk = .ok ks)
+    (hown : k0 ∈ ks ∨ ∃ q, q ∈ progressPrefixes cfg.progress ∧ underPrefix q.toList k0 = true)
+    (hw : J.WF (.obj kvs)) (hw' : J.WF (.obj (withAnn kvs m A')))
+    (h : essence cfg extra (.obj kvs) = .ok e) (h' : essence cfg extra (.obj (withAnn kvs m A')) = .ok e') :
+    diff e e' [] = [] :=
+  own_key_unmarked_diff_nil hcfg hplain hm ha hd hmark hmk hks hown hw hw' h h'
+
+/-- a `kopf.dev` diff-base storage: its last-handled key is unmarked and among the exact keys. -/
+example : markedPrefix? "kopf.dev/last-handled-configuration" = none
+    ∧ (makeKeys [] true "kopf.dev".toList "last-handled-configuration".toList).toOption =
+        some ["kopf.dev/last-handled-configuration"] := by decide
 
 /-! ## the excluded points, executed (witnesses for the known findings F8, F9) -/
 
@@ -290,18 +416,5 @@ theorem multi_drs_witness :
     diffLen (essence cfgMultiDev [] (rsBody [("plain", .str "v")]))
       (essence cfgMultiDev [] (rsBody [("plain", .str "v"), ("kopf.dev/last-handled-configuration-ofDRS", .str "{}")]))
       = some 1 := by decide
-
-/-
-  Not proved in Lean (covered by the differential tie and the Python oracle only), stated here so
-  that the gap is visible:
-  * `own_unmarked_prefix_invisible_partial` — own keys under a custom prefix that is *not* marked
-    (before the first marker write; prefixes starting with `kopf.`, for which no marker is written)
-    are cleaned by the exact last-handled keys (`AnnotationsDiffBaseStorage.build`) and by
-    `AnnotationsProgressStorage.clear`; the essence-level invariance for that route is not proved.
-    F9 (known finding) shows the route is in fact broken for `MultiDiffBaseStorage` + `-ofDRS`.
-  * label / ordinary-annotation changes reach the diff of the essences (the analogue of
-    `payload_change_detected` below `metadata`): proved only at the level of the annotation filter
-    (`ordinary_annotation_kept`).
--/
 
 end Kopf.C04
